@@ -54,6 +54,13 @@ def getDict (j : Json) (k : String) : Except String Dict := do
     | .arr #[.str key, v, .bool fl] => do pure (key.toList, ⟨← asRat v, fl⟩)
     | _ => .error s!"!bad-arg:{k}"
 
+/-- `comment_tokens`: a list of strings, or null for the default of the source (`Gen.Printing.commentTokens`) -/
+def getCommentTokens (j : Json) : Except String (List Str) :=
+  match j.getObjVal? "comment_tokens" with
+  | .ok .null => .ok ChemModel.Gen.Printing.commentTokens
+  | .ok (.arr a) => do pure ((← a.toList.mapM asStr).map String.toList)
+  | _ => .error "!bad-arg:comment_tokens"
+
 def getReaction (j : Json) : Except String Reaction := do
   pure ⟨← getDict j "reac", ← getDict j "prod", ← getDict j "inact_reac", ← getDict j "inact_prod",
         ← getOptS j "param", ← getOptS j "name"⟩
@@ -91,9 +98,10 @@ def h : Handler := fun op j =>
   | "copy_eq" => do
       let a ← getReaction j
       pure (if Reaction.eq a.copy a then "True" else "False")
-  | "system_lines" => do pure (showStrs (systemLines ChemModel.Gen.Printing.commentTokens (← getS j "text")))
+  | "system_lines" => do
+      pure (showStrs (systemLines (← getCommentTokens j) (← getS j "text")))
   | "system_parse" => do
-      match systemFromString (← getAllowed j) (← getS j "token") (← getS j "text") with
+      match systemFromString (← getCommentTokens j) (← getAllowed j) (← getS j "token") (← getS j "text") with
       | .ok rs => pure ("ok " ++ " ; ".intercalate (rs.map showReaction))
       | .error e => pure (showErr e)
   | "system_print" => do
